@@ -19,6 +19,7 @@ import (
 	"sort"
 	"strings"
 	"sync"
+	"syscall"
 	"time"
 
 	"verif/ev"
@@ -64,6 +65,16 @@ var classOf = map[string]string{
 	modPath + "/good": "ok", modPath + "/bad": "conv", modPath + "/bad_minus": "ok",
 	modPath + "/nested/inner": "ok", modPath + "/nested/inner2": "ok", modPath + "/loadfail": "load",
 	modPath + "/tags": "ok", modPath + "/my-pkg.v2": "ok",
+	// a nested module in which two packages map to the same Coq path
+	"example.com/coll/a-b": "ok", "example.com/coll/a.b": "ok", "example.com/coll/other": "ok",
+}
+
+// sub-directory of the fixture from which a package of a nested module is translated on its own
+func subOf(pkg string) string {
+	if strings.HasPrefix(pkg, "example.com/coll/") {
+		return "collmod"
+	}
+	return ""
 }
 
 // the documented path mapping, written independently of the code under test
@@ -107,7 +118,11 @@ type runResult struct {
 	stamps map[string]string // path -> "ino:mtime" after
 	before map[string]string
 	dirs   map[string]bool // directories present afterwards (relative)
+	modes  map[string]os.FileMode
 }
+
+// the harness (and so the goose child) runs under this umask; a file goose creates must not carry a bit it masks
+const harnessUmask = 0o027
 
 var tmpCounter int
 var tmpMu sync.Mutex
@@ -174,7 +189,7 @@ func invoke(prior State, e Event) runResult {
 	cmd.Stderr = &errb
 	cmd.Stdout = &errb
 	err := cmd.Run()
-	r := runResult{stderr: errb.String(), after: State{}, stamps: map[string]string{}, before: before, dirs: map[string]bool{}}
+	r := runResult{stderr: errb.String(), after: State{}, stamps: map[string]string{}, before: before, dirs: map[string]bool{}, modes: map[string]os.FileMode{}}
 	if err != nil {
 		if ee, ok := err.(*exec.ExitError); ok {
 			r.exit = ee.ExitCode()
@@ -193,6 +208,7 @@ func invoke(prior State, e Event) runResult {
 			b, _ := os.ReadFile(p)
 			r.after[rel] = string(b)
 			r.stamps[rel] = stamp(p)
+			r.modes[rel] = info.Mode().Perm()
 		}
 		return nil
 	})
@@ -229,7 +245,7 @@ func solo(pkg, flag string, ignore bool) (string, bool) {
 		c := v.(*string)
 		return *c, c != nil
 	}
-	r := invoke(State{}, Event{Pats: []string{pkg}, Flag: flag, Ignore: ignore})
+	r := invoke(State{}, Event{Pats: []string{pkg}, Flag: flag, Ignore: ignore, Sub: subOf(pkg)})
 	c, ok := r.after[coqPath(pkg)]
 	if !ok {
 		soloCache.Store(key, (*string)(nil))
@@ -245,6 +261,11 @@ func check(prior State, e Event, r runResult) (kind, msg string) {
 	if r.exit != 0 && r.exit != 1 {
 		return "crash", fmt.Sprintf("exit status %d: %s", r.exit, tail(r.stderr))
 	}
+	for p, m := range r.modes {
+		if _, existed := prior[p]; !existed && m&harnessUmask != 0 {
+			return "mode-ignores-umask", fmt.Sprintf("%s was created with mode %04o under umask %04o", p, m, harnessUmask)
+		}
+	}
 	pkgs := goList(e)
 	want := prior.clone()
 	wantExit := 0
@@ -252,8 +273,39 @@ func check(prior State, e Event, r runResult) (kind, msg string) {
 		wantExit = 1
 	}
 	unjudged := map[string]bool{}
+	// two matched packages with one Coq path: "one file per package" and "exit 0" cannot both hold, a refusal (exit 1) is
+	// the only answer that loses nothing silently; which translation ends up at the path is not judged
+	byPath := map[string][]string{}
+	for _, p := range pkgs {
+		byPath[coqPath(p)] = append(byPath[coqPath(p)], p)
+	}
+	// a directory in the way of an output file (the prior state has files below the path): that package cannot be
+	// written and the status is 1, every other package is handled as usual
+	blocked := func(cp string) bool {
+		for q := range prior {
+			if strings.HasPrefix(q, cp+"/") {
+				return true
+			}
+		}
+		return false
+	}
 	for _, p := range pkgs {
 		cls, known := classOf[p]
+		if known && cls != "load" && len(dedupStr(byPath[coqPath(p)])) > 1 {
+			wantExit = 1
+			unjudged[coqPath(p)] = true
+			delete(want, coqPath(p))
+			continue
+		}
+		if known && cls != "load" && blocked(coqPath(p)) {
+			if cls == "ok" || e.Ignore {
+				wantExit = 1
+			}
+			if cls == "conv" {
+				wantExit = 1
+			}
+			continue
+		}
 		if !known {
 			cls = "load"
 		}
@@ -326,6 +378,18 @@ func check(prior State, e Event, r runResult) (kind, msg string) {
 		}
 	}
 	return "", ""
+}
+
+func dedupStr(xs []string) []string {
+	seen := map[string]bool{}
+	var out []string
+	for _, x := range xs {
+		if !seen[x] {
+			seen[x] = true
+			out = append(out, x)
+		}
+	}
+	return out
 }
 
 func firstDiff(a, b string) int {
@@ -420,6 +484,11 @@ func events(tier string) []Event {
 	}
 	out = append(out, Event{Pats: []string{"./good"}, Flag: "-typecheck"})
 	out = append(out, Event{Pats: []string{"./good", "./bad"}, DirArg: true}, Event{Pats: []string{"./..."}, DirArg: true, Ignore: true}, Event{Pats: []string{modPath + "/nested/inner2"}, DirArg: true})
+	// a nested module with two packages on one Coq path
+	for _, ig := range []bool{false, true} {
+		out = append(out, Event{Pats: []string{"./..."}, Sub: "collmod", Ignore: ig}, Event{Pats: []string{"./a.b", "./a-b"}, Sub: "collmod", Ignore: ig},
+			Event{Pats: []string{"./a-b", "./other"}, Sub: "collmod", Ignore: ig})
+	}
 	// the working directory / -dir is a sub-directory of the module (go.mod in a parent)
 	for _, da := range []bool{false, true} {
 		out = append(out, Event{Pats: []string{"./inner"}, Sub: "nested", DirArg: da}, Event{Pats: []string{"./..."}, Sub: "nested", DirArg: da},
@@ -451,6 +520,7 @@ func main() {
 	flag.StringVar(&gooseBin, "bin", "", "goose binary")
 	flag.Parse()
 	start := time.Now()
+	syscall.Umask(harnessUmask)
 	scratch, _ = os.MkdirTemp("", "verif-c17-")
 	defer os.RemoveAll(scratch)
 	fixture = filepath.Join(scratch, "module")
@@ -527,6 +597,8 @@ func main() {
 		{coqPath(modPath + "/good"): good[:len(good)/2]},
 		{coqPath(modPath + "/good"): good[:len(good)-1] + "#"},
 		{coqPath(modPath + "/good"): good + good, coqPath(modPath + "/nested/inner"): "\n"},
+		// a directory where an output file belongs
+		{coqPath(modPath+"/good") + "/placeholder": "in the way\n"},
 	}
 	type node struct {
 		st   State
@@ -603,7 +675,7 @@ func main() {
 	os.RemoveAll(scratch)
 	os.Exit(acc.Done(ev.Finish{
 		Prop: "C17", Tier: *tier, Level: "model_checking", Start: start,
-		Rule:        "explicit-state BFS (depth 2) over invocations of the real goose binary on a fixture module (good, conversion-error, load-error, nested, build-tag-split, dashed/dotted package path): 13 pattern sets (relative, recursive, import path, mixed good/bad in both orders, duplicate, non-matching) x -ignore-errors x content flags (thorough: all four) x cwd / -dir x -out absolute / relative to the working directory / defaulted x module root / a sub-directory of the module as working directory or -dir, on a private copy of the fixture, from seven seed out-dir states (empty; garbage + stale file; identical + old partial file; new content + trailing text; proper prefix; same length, other last byte; doubled); state = out-dir tree (paths, content); oracle per transition: exit 0 iff every package selected by `go list -tags goose` translated, one file per translated package at the documented path with the content of its solo translation, failing packages write nothing unless -ignore-errors, no other file touched or created, no directory created but the ancestors of those files, unchanged content keeps inode and mtime; plus: partial output == translation of the package without the failing declaration, definitions of the build-tag package == functions of the files `go list -tags goose` selects",
+		Rule:        "explicit-state BFS (depth 2) over invocations of the real goose binary, run under umask 027 (a created file must not carry a masked bit), on a fixture module (good, conversion-error, load-error, nested, build-tag-split, dashed/dotted package path, and a nested module whose packages a-b and a.b share one Coq path: refusal expected; one seed state has a directory where an output file belongs: that package fails, all others are handled as usual): 13 pattern sets (relative, recursive, import path, mixed good/bad in both orders, duplicate, non-matching) x -ignore-errors x content flags (thorough: all four) x cwd / -dir x -out absolute / relative to the working directory / defaulted x module root / a sub-directory of the module as working directory or -dir, on a private copy of the fixture, from seven seed out-dir states (empty; garbage + stale file; identical + old partial file; new content + trailing text; proper prefix; same length, other last byte; doubled); state = out-dir tree (paths, content); oracle per transition: exit 0 iff every package selected by `go list -tags goose` translated, one file per translated package at the documented path with the content of its solo translation, failing packages write nothing unless -ignore-errors, no other file touched or created, no directory created but the ancestors of those files, unchanged content keeps inode and mtime; plus: partial output == translation of the package without the failing declaration, definitions of the build-tag package == functions of the files `go list -tags goose` selects",
 		Assumptions: []string{"file content is judged against the binary's own solo translation (placement, exit status and rewrite behaviour are what this property is about)", "a package that fails to load under -ignore-errors writes a stray file; the property speaks of conversion errors only, so that file is not judged", "permission-based out-dir states are not explored (the sandbox runs as root)"},
 	}))
 }
